@@ -6,6 +6,7 @@ import (
 	"encoding/binary"
 	"fmt"
 	"net"
+	"os"
 	"path/filepath"
 	"time"
 
@@ -258,6 +259,12 @@ func runServer(w *world, pre []frame, post func(sent []frame) []frame) srvObs {
 	neg := &security.SecurityNegotiation{IsClient: false, ServerConfig: cfg}
 	auth := security.NewAuthenticator(cfg, stream.NewStream(sc))
 	done := make(chan error, 1)
+	if w.Env != "" {
+		os.Setenv("SEC_TOKEN_MAX_AGE", w.Env)
+		defer os.Unsetenv("SEC_TOKEN_MAX_AGE")
+	} else {
+		os.Unsetenv("SEC_TOKEN_MAX_AGE")
+	}
 	o.T0 = time.Now().Unix()
 	go func() {
 		defer func() {
